@@ -69,6 +69,23 @@ def run_case(spec):
                     fh.write(gvfgen.GVF_HEAD.format(parser=gvfgen.PARSER_OF[family], source=src))
                     for r in ch:
                         line = r.line()
+                        if family == 'circ' and len(r.frags) > 1 and rng.random() < 0.5:
+                            # fragments listed in another order than ascending gene coordinate (what parseCIRCexplorer writes for
+                            # minus-strand genes): POS = start of the first listed fragment, later OFFSETs may be negative
+                            order = list(range(len(r.frags)))
+                            if rng.random() < 0.5:
+                                order.reverse()
+                            else:
+                                rng.shuffle(order)
+                            fr = [r.frags[i] for i in order]
+                            intr = sorted(order.index(i - 1) + 1 for i in r.introns)
+                            f0 = line.split('\t')
+                            f0[1] = str(fr[0][0])
+                            f0[7] = (f"OFFSET={','.join(str(s_ - fr[0][0]) for s_, e_ in fr)};"
+                                     f"LENGTH={','.join(str(e_ - s_) for s_, e_ in fr)};"
+                                     f"INTRON={','.join(str(i) for i in intr)};" + f0[7].split(';', 3)[3])
+                            line = '\t'.join(f0)
+                            counters['circ_unsorted_fragments'] = counters.get('circ_unsorted_fragments', 0) + 1
                         if unicode_src and rng.random() < 0.3:
                             line = line.replace('GENE_SYMBOL=GENE', 'GENE_SYMBOL=GÉNE')
                         fh.write(line + '\n')
